@@ -194,6 +194,23 @@ def stitch_sweep(rnd: random.Random, n_pairs: int) -> tuple[int, dict, list[dict
     return tried, hist, bad
 
 
+def overheard_sweep() -> list[dict]:
+    """A zone's transfer waits for the lock (another zone is being read) while the controller is overheard sending
+    that zone's schedule to somebody else - the whole set or part of it - and the schedule is edited before one of the
+    transfer's own exchanges: what was overheard is an old schedule by the time the transfer reads the counter."""
+    out = []
+    for a, b in ((1, 2), (2, 1)):            # a waits while b is read
+        for pre in ([["heard6", 0, 0, 0, 0, 0, -1]], []):
+            for frs in ((1, 2), (2, 1), (1,), (2,)):
+                for at in (1, 2):            # overheard before exchange `at` of b's transfer
+                    for n in (0, 1, 2):      # edited before exchange n of a's own transfer
+                        h = pre + [["start", 1, b, 0, 0, 0, -1], ["start", 2, a, 0, 0, 0, -1]] + \
+                            [["heard", a, 0, k, 0, 1, at] for k in frs] + \
+                            [["bump", a, 0, 0, 0, 2, n], ["fu", a, 0, 0, 0, 0, -1], ["fu", b, 0, 0, 0, 0, -1]]
+                        out.append({"zones": [1, 2], "h": [list(e) for e in h]})
+    return out
+
+
 def concurrent_sweep() -> list[dict]:
     """Two zones that already hold a schedule re-read at the same moment (forced, or after the cached counter has
     aged), one of them with a fault at each of its first exchanges: version reads happen *before* the lock is
@@ -338,6 +355,10 @@ def main(tier: str, replay: str | None) -> None:
     run_mc(f"MC_SchedXfer_fix{sfx}.cfg")  # repaired: all five clauses, no deadlock
     run_mc("MC_SchedXfer_lock.cfg", ["LockFreeWhenIdle"])  # as-is: expected counter-examples
     run_mc("MC_SchedXfer_fu.cfg", ["FollowUpNormal"])
+    # a whole set overheard while the transfer waits for the lock (two overheard fragments): the as-is model returns
+    # the overheard - by then old - schedule; the repaired one (fix.stale) does not
+    run_mc("MC_SchedXfer_heard.cfg", ["ResultAsOfRead"])
+    run_mc("MC_SchedXfer_heard_fix.cfg")
     if not quick:
         run_mc("MC_SchedXfer_live.cfg")  # every transfer ends (fairness), as-is and repaired
         run_mc("MC_SchedXfer_live_fix.cfg")
@@ -383,6 +404,7 @@ def main(tier: str, replay: str | None) -> None:
     scen += [("concurrent-sweep", s) for s in concurrent_sweep()]
     scen += [("retry-sweep", s) for s in retry_sweep()]
     scen += [("onefrag-sweep", s) for s in onefrag_sweep()]
+    scen += [("overheard-sweep", s) for s in overheard_sweep()]
     # transparent-fault variants (slow / duplicated replies) of a sample
     base = [s for _, s in scen]
     for s in rnd.sample(base, min(len(base), 120 if quick else 2000)):
@@ -480,7 +502,10 @@ def main(tier: str, replay: str | None) -> None:
                 chk.model_drift(f"execution deviates from the {'as-is' if tag == 'F' else 'repaired'} model at event {f[0]} "
                                 f"({f[2]}); {drift_f if tag == 'F' else drift_t} of {n} executions; first: {json.dumps(sc['h'])}")
     for origin, sc in cand:
-        if origin.split(":")[1] not in ("LockFreeWhenIdle", "FollowUpNormal"):
+        # (the counter-examples of the as-is instances - lock, fu, heard - are expected not to reproduce once the
+        #  code follows the repaired model)
+        if origin.split(":")[1] not in ("LockFreeWhenIdle", "FollowUpNormal") and \
+                not (origin.startswith("MC_SchedXfer_heard.cfg") and conforms.startswith("repaired")):
             i = [j for j, (o, _) in enumerate(runs) if o == origin][0]
             if not any(not f[1].startswith("DRIFT") for f in res["rejects"].get(i, ())):
                 chk.model_drift(f"TLC refuted {origin} on the model but the real code does not reproduce it")
